@@ -731,6 +731,29 @@ def directed_personas(year, seed, n):
         base_ = 400000 if st_ == 'MFJ' else 200000
         p = plain_persona(year, st_, float(base_ + 1000 * r.randint(1, 40)), key=f'dirk:{seed}:{k}', deps_ctc=r.choice([1, 2]), deps_odc=r.choice([0, 1]))
         out.append(('F1k', p))
+        # little earned income, large qualified dividends and capital-gain distributions, some REIT dividends:
+        # Form 8995 with net capital gain above taxable income (lines 12-15), the capital-gain worksheet at its floors
+        st_ = r.choice(['S', 'MFJ', 'HOH'])
+        base_ = _stat.amount('standard_deduction', year, st_)
+        p = plain_persona(year, st_, round(base_ + r.choice([r.uniform(-9000, -500), r.uniform(-3000, 6000)]), 2), key=f'dirqbi:{seed}:{k}', deps_odc=1 if st_ == 'HOH' else 0, n_div=1,
+                               divs=[{'box_1a': 14000.0, 'box_1b': round(r.choice([14000.0, r.uniform(9000, 14000)]), 2), 'box_2a': round(r.uniform(0, 9000), 2), 'box_4': 0.0,
+                                      'box_5': round(r.uniform(50, 900), 2), 'box_7': 0.0, 'box_16_1': 0.0}])
+        out.append(('F2q', p))
+        # N.C. return with a small overpayment and designations on lines 29-32 around (also above) it
+        st_ = r.choice(['S', 'MFJ', 'HOH'])
+        w_ = round(r.uniform(40000, 90000), 2)
+        p = plain_persona(year, st_, w_, key=f'dirncover:{seed}:{k}', deps_odc=1 if st_ == 'HOH' else 0, nc=True)
+        for d in p.w2:
+            d['box_17'] = round(w_ * r.uniform(0.025, 0.05), 2)
+        p.ncv['refund_contrib'] = float(r.choice([25, 100, 250, 600]))
+        out.append(('F8o', p))
+        # joint N.C. return with N.C. tax withheld on jointly owned interest / dividend statements
+        p = plain_persona(year, 'MFJ', [round(r.uniform(30000, 70000), 2), round(r.uniform(20000, 50000), 2)], key=f'dirncjoint:{seed}:{k}', deps_ctc=r.choice([0, 1]), nc=True,
+                          n_int=1, ints=[{'box_1': round(r.uniform(100, 1400), 2), 'box_3': 0.0, 'box_4': 0.0, 'box_6': 0.0, 'box_8': 0.0, 'box_2': 0.0,
+                                          'box_17_1': round(r.uniform(5, 60), 2), 'box_15_1': 'NC', 'belongs_to': r.choice(['both', 'both', 'spouse'])}],
+                          n_div=1, divs=[{'box_1a': round(r.uniform(100, 1300), 2), 'box_1b': 0.0, 'box_2a': 0.0, 'box_4': 0.0, 'box_5': 0.0, 'box_7': 0.0,
+                                          'box_16_1': round(r.uniform(5, 40), 2), 'box_14_1': 'NC', 'belongs_to': r.choice(['both', 'taxpayer'])}])
+        out.append(('F8j', p))
         # plain (fully taxable) IRA distributions of both spouses
         p = plain_persona(year, 'MFJ', [round(r.uniform(40000, 90000), 2), round(r.uniform(30000, 60000), 2)], key=f'dirira:{seed}:{k}')
         p.n_1099r = 2
